@@ -166,3 +166,31 @@ Theorem C11_maturity_withdrawable : forall s o d',
   zget (dbnd (fst (step s o))) d' <= zget (dbnd s) d'.
 Proof. exact withdrawable_not_growing_in_tx. Qed.
 Print Assumptions C11_maturity_withdrawable.
+
+(* ---- changes of the maturity option: only a FINALISED proposal counts ----
+   (gstep: the life cycle with the maturity option read from its persisted value.)  Proposals about
+   the option that are not finalised — created, only CheckTx'ed, refused, funded, voted — are a frame:
+   dropping them from any history changes neither the state nor the option, hence no maturity
+   height; and every unstake is recorded at height + the option in force in the store. *)
+Theorem C11_maturity_unfinalised_proposals_frame : forall l gs,
+  grun gs l = grun gs (filter (fun g => not_unfinalised g = true) l).
+Proof. exact unfinalised_proposals_frame. Qed.
+Print Assumptions C11_maturity_unfinalised_proposals_frame.
+
+Theorem C11_maturity_option_in_force : forall s m v d a ro h m0 pb ff,
+  snd (step s (OUnstake v d a false ro h m pb ff)) = true ->
+  mat (fst (gstep (s, m) (GOp (OUnstake v d a false ro h m0 pb ff))))
+    = <[h + m := mat_at s (h + m) ++ [(d, a)]]> (mat s).
+Proof. exact gstep_unstake_entry. Qed.
+Print Assumptions C11_maturity_option_in_force.
+
+(* non-vacuity: a refused/unfinalised proposal for 3 blocks between stake and unstake leaves the entry
+   at height + 109200; a finalised one for 150000 moves later entries *)
+Example C11_maturity_proposals_nonvacuous :
+  let l := [GOp (OGenStake 5 6 2998000); GOp (OBegin []); GProposal false 3;
+            GOp (OUnstake 5 6 100 false false 2 0 false false); GProposal true 150000;
+            GOp (OUnstake 5 6 200 false false 3 0 false false)] in
+  mat_at (fst (grun (empty_state, 109200) l)) (2 + 109200) = [(6%positive, 100)] /\
+  mat_at (fst (grun (empty_state, 109200) l)) (3 + 150000) = [(6%positive, 200)] /\
+  mat_at (fst (grun (empty_state, 109200) l)) (2 + 3) = [].
+Proof. vm_compute. repeat split. Qed.
